@@ -111,7 +111,7 @@ where
 fn main() {
     let ctx = Ctx::from_args("C15");
     ndv_checks::warm_up_f32();
-    let acc = ctx.parallel(|shard, nshards| {
+    let mut acc = ctx.parallel(|shard, nshards| {
         let mut acc = Acc::new();
         let mut t = 0u64;
         macro_rules! go {
@@ -129,6 +129,8 @@ fn main() {
         let _ = t;
         acc
     });
+    // results must not depend on what was called before, on which thread, or at the same time
+    acc.merge(ndv_checks::history_independence(ndv_checks::Family::SphericalBessel, &ctx));
     let regs: std::collections::BTreeSet<String> = acc.classes.keys().filter(|k| k.starts_with("sph_j") && !k.contains("-re-vs")).filter_map(|k| k.split('|').nth(2).map(|s| s.to_string())).collect();
     let mut extra = serde_json::Map::new();
     extra.insert("argument_regions_observed".into(), json!(regs));
